@@ -389,6 +389,189 @@ fn child(args: &Args, mut rep: Report, scn_seed: u64) -> Report {
     rep
 }
 
+
+// ---------------------------------------------------------------------------
+// Faults of the medium below an archive source
+// ---------------------------------------------------------------------------
+
+/// A persistent `Interrupted` would make `read_exact` / `read_to_end` retry for ever (that is
+/// what the kind means), so the medium fails with the other kinds only.
+const MEDIUM_KINDS: [ErrorKind; 4] = [ErrorKind::PermissionDenied, ErrorKind::UnexpectedEof, ErrorKind::InvalidData, ErrorKind::Other];
+
+/// A seekable reader over shared bytes of which only a prefix is visible:
+/// beyond it a read reports end-of-file or an error, as a truncated file or
+/// a failing medium does.
+#[derive(Clone)]
+struct Medium {
+    data: std::sync::Arc<Vec<u8>>,
+    visible: std::sync::Arc<std::sync::atomic::AtomicUsize>,
+    /// 0 = end of file, k > 0 = MEDIUM_KINDS[k - 1]
+    failure: std::sync::Arc<std::sync::atomic::AtomicUsize>,
+    pos: u64,
+}
+
+impl std::io::Read for Medium {
+    fn read(&mut self, buf: &mut [u8]) -> std::io::Result<usize> {
+        let vis = self.visible.load(SeqCst).min(self.data.len());
+        let pos = self.pos as usize;
+        if pos >= vis {
+            if buf.is_empty() || vis == self.data.len() {
+                return Ok(0);
+            }
+            return match self.failure.load(SeqCst) {
+                0 => Ok(0),
+                k => Err(std::io::Error::new(MEDIUM_KINDS[k - 1], "injected medium failure")),
+            };
+        }
+        let n = buf.len().min(vis - pos);
+        buf[..n].copy_from_slice(&self.data[pos..pos + n]);
+        self.pos += n as u64;
+        Ok(n)
+    }
+}
+
+impl std::io::Seek for Medium {
+    fn seek(&mut self, to: std::io::SeekFrom) -> std::io::Result<u64> {
+        let new = match to {
+            std::io::SeekFrom::Start(p) => p as i64,
+            std::io::SeekFrom::End(d) => self.data.len() as i64 + d,
+            std::io::SeekFrom::Current(d) => self.pos as i64 + d,
+        };
+        if new < 0 {
+            return Err(std::io::Error::new(ErrorKind::InvalidInput, "seek before start"));
+        }
+        self.pos = new as u64;
+        Ok(self.pos)
+    }
+}
+
+fn find(hay: &[u8], needle: &[u8]) -> Option<usize> {
+    hay.windows(needle.len()).position(|w| w == needle)
+}
+
+/// A source read that hits the end (or a failure) of the medium inside a member,
+/// after the archive was indexed: the load must fail, nothing may be cached, cached
+/// values stay, and the same load succeeds once the medium is whole again.
+fn archive_medium(rep: &mut Report, rng: &mut Rng) {
+    use assets_manager::source::{Source, Tar, Zip};
+    use assets_manager::AssetCache;
+    let sizes: &[usize] = if cfg!(miri) { &[1, 700] } else { &[1, 7, 511, 512, 513, 3502, 70_000] };
+    for kind in ["tar", "zip-stored"] {
+        // members with unique, incompressible contents
+        let mut contents: Vec<(String, Vec<u8>)> = vec![("keep".into(), b"kept-value".to_vec())];
+        for (i, n) in sizes.iter().enumerate() {
+            let mut c = format!("<m{i}:").into_bytes();
+            while c.len() < *n {
+                c.push(b'a' + (rng.below(26) as u8));
+            }
+            c.truncate((*n).max(1));
+            contents.push((format!("m{i}"), c));
+        }
+        let bytes: Vec<u8> = if kind == "tar" {
+            let mut b = tar::Builder::new(Vec::new());
+            for (name, c) in &contents {
+                let mut h = tar::Header::new_gnu();
+                h.set_size(c.len() as u64);
+                h.set_mode(0o644);
+                h.set_cksum();
+                b.append_data(&mut h, format!("d/{name}.a"), &c[..]).unwrap();
+            }
+            b.into_inner().unwrap()
+        } else {
+            use std::io::Write;
+            let mut z = zip::ZipWriter::new(std::io::Cursor::new(Vec::new()));
+            let opts = zip::write::FileOptions::default().compression_method(zip::CompressionMethod::Stored);
+            for (name, c) in &contents {
+                z.start_file(format!("d/{name}.a"), opts).unwrap();
+                z.write_all(c).unwrap();
+            }
+            z.finish().unwrap().into_inner()
+        };
+        let medium = Medium {
+            data: std::sync::Arc::new(bytes),
+            visible: std::sync::Arc::new(std::sync::atomic::AtomicUsize::new(usize::MAX)),
+            failure: Default::default(),
+            pos: 0,
+        };
+        let src: Box<dyn Source + Send + Sync> = if kind == "tar" {
+            match Tar::from_reader(medium.clone()) {
+                Ok(t) => Box::new(t),
+                Err(e) => {
+                    rep.inconclusive(&format!("archive-medium: cannot open the tar archive: {e}"));
+                    return;
+                }
+            }
+        } else {
+            match Zip::from_reader(medium.clone()) {
+                Ok(z) => Box::new(z),
+                Err(e) => {
+                    rep.inconclusive(&format!("archive-medium: cannot open the zip archive: {e}"));
+                    return;
+                }
+            }
+        };
+        let mut cache = AssetCache::without_hot_reloading(src);
+        let kept = cache.load::<Leaf<1, 0, true>>("d.keep").map(|h| h.read().v.clone());
+        if kept.is_err() {
+            rep.inconclusive("archive-medium: the whole archive does not load");
+            return;
+        }
+        for (i, (name, c)) in contents.iter().enumerate().skip(1) {
+            let Some(start) = find(&medium.data, c) else { continue };
+            let id = format!("d.{name}");
+            let mut cuts = vec![0, 1, c.len() / 2, c.len() - 1];
+            cuts.sort();
+            cuts.dedup();
+            for cut in cuts {
+                if cut >= c.len() {
+                    continue;
+                }
+                for failure in 0..=2usize {
+                    rep.eval();
+                    medium.visible.store(start + cut, SeqCst);
+                    medium.failure.store(if failure == 0 { 0 } else { 1 + (i + failure) % MEDIUM_KINDS.len() }, SeqCst);
+                    let scen = json!({"part": "medium below an archive source", "archive": kind, "member": format!("d/{name}.a"),
+                        "member_size": c.len(), "medium_ends_after_member_bytes": cut,
+                        "beyond": if failure == 0 { "end of file".to_string() } else { format!("{:?}", MEDIUM_KINDS[(i + failure) % MEDIUM_KINDS.len()]) }});
+                    let got = cache.load::<Leaf<1, 0, true>>(&id).map(|h| h.read().v.clone()).map_err(|e| describe_error(&e));
+                    let owned = cache.load_owned::<Leaf<1, 0, true>>(&id).map(|l| l.v.clone()).map_err(|e| describe_error(&e));
+                    for (api, g) in [("load", &got), ("load_owned", &owned)] {
+                        match g {
+                            Err(e) if e.id == id => {}
+                            Err(e) => rep.violation("medium", "C09/error-names-wrong-id:archive-medium", json!({"api": api, "error": format!("{e:?}")}), scen.clone()),
+                            Ok(v) => rep.violation(
+                                "medium",
+                                "C09/partial-value-visible:archive-medium",
+                                json!({"api": api, "returned": format!("{v:?}"), "true_length": c.len()}),
+                                scen.clone(),
+                            ),
+                        }
+                    }
+                    if cache.contains::<Leaf<1, 0, true>>(&id) {
+                        rep.violation("medium", "C09/failure-cached-something:archive-medium", json!({"id": id}), scen.clone());
+                        cache.remove::<Leaf<1, 0, true>>(&id);
+                    }
+                    // what was cached before is untouched
+                    let k2 = cache.get_cached::<Leaf<1, 0, true>>("d.keep").map(|h| h.read().v.clone());
+                    if k2.as_ref() != kept.as_ref().ok() {
+                        rep.violation("medium", "C09/cached-value-touched:archive-medium", json!({"got": format!("{k2:?}")}), scen.clone());
+                    }
+                    // repaired: the same load gives the whole member
+                    medium.visible.store(usize::MAX, SeqCst);
+                    let want = V::Leaf { ext: "a".into(), len: c.len(), hash: content_hash(c) };
+                    let again = cache.load_owned::<Leaf<1, 0, true>>(&id).map(|l| l.v.clone()).map_err(|e| describe_error(&e));
+                    if again.as_ref().ok() != Some(&want) {
+                        rep.violation("medium", "C09/not-recovered-after-repair:archive-medium", json!({"got": format!("{again:?}"), "want": format!("{want:?}")}), scen.clone());
+                    }
+                    rep.count("archive_medium_faults", 1);
+                    rep.nontrivial(mix(fnv_str(kind), mix(i as u64 * 8 + failure as u64, cut as u64)));
+                }
+            }
+        }
+        rep.seen("archive_medium_kinds", kind);
+    }
+}
+
 pub fn run(args: &Args) -> Report {
     let mut rep = Report::new(args);
     rep.rule = "scenarios = generated recipe DAGs (3..6 compounds over 2..3 leaves) in two phases: initial load of the \
@@ -455,6 +638,10 @@ pub fn run(args: &Args) -> Report {
         if child_needed && !miri {
             run_child(&mut rep, args, scn_seed, &mut fired_total, &mut points_total);
         }
+    }
+    if args.shard == 0 {
+        let mut r = Rng::new(args.seed).sub(0xa7c);
+        archive_medium(&mut rep, &mut r);
     }
     rep.count("fault_points_run", points_total);
     rep.count("fault_points_fired", fired_total);
